@@ -1,7 +1,7 @@
 """X08 (extension, beyond the listed properties) -- named wait groups of a scope
 (app/modules/commonm/commservices/waits).
 (M) WaitGroups.tla: the sequential meaning of ScopeWaitManager -- one counter per name,
-    every Add / Done also counted by the scope, a waiter (of a name, or of the scope itself)
+    every Add (of one or two units) / Done also counted by the scope, a waiter (of a name, or of the scope itself)
     blocked exactly while the count of its target is positive; NoLostWakeup, NoEarlyReturn,
     ScopeCoupled, GoneForGood for every history of <= 5 (thorough 7) calls over two names and
     <= 2 (thorough 3) waiters.
